@@ -104,6 +104,8 @@ class CrossTalk(Stage):
         items = []
         for _ in range(d.int(2, 7)):
             alts = [d.choice(simple) for _ in range(d.int(0 if items else 1, 2))]
+            if items and d.chance(0.2):
+                alts.insert(d.int(0, len(alts)), d.choice(['*', '*.*', '* . *']))     # selects everything: earlier exclusions stay
             excl = [d.choice(simple) for _ in range(d.int(0 if alts else 1, 1))]
             t = (', '.join(alts) + (' ! ' + ', '.join(excl) if excl else '')).strip()
             if d.chance(0.5):
